@@ -468,23 +468,41 @@ def regex_to_z3(pattern):
         return z3.Concat(*parts) if len(parts) > 1 else parts[0]
 
     items = list(sp.parse(pattern))
-    anchored_start = anchored_end = False
+    anchored_start = False
+    anchored_end = None  # None | "Z" (end of string) | "$" (end, or before one trailing newline)
     if items and items[0][0] == sc.AT and items[0][1] in (sc.AT_BEGINNING, sc.AT_BEGINNING_STRING):
         anchored_start = True
         items = items[1:]
     if items and items[-1][0] == sc.AT and items[-1][1] == sc.AT_END_STRING:
-        anchored_end = True
+        anchored_end = "Z"
+        items = items[:-1]
+    elif items and items[-1][0] == sc.AT and items[-1][1] == sc.AT_END:
+        anchored_end = "$"
         items = items[:-1]
     return seq(items), anchored_start, anchored_end
+
+
+def regex_language(pat, mode):
+    """language of the strings on which re.<mode>(pat, s) succeeds (no flags)."""
+    r, a_start, a_end = regex_to_z3(pat)
+    anyc = z3.Star(re_any())
+    tail = {None: anyc, "Z": z3.Re(""), "$": z3.Option(z3.Re("\n"))}[a_end]
+    if mode == "fullmatch":
+        # the whole string must be consumed; `$` consumes nothing, so a trailing newline is not allowed here
+        return r
+    if mode == "match" or a_start:
+        return z3.Concat(r, tail)
+    return z3.Concat(anyc, r, tail)
 
 
 def regex_run(I, rx, mode, s):
     from .interp import MatchObj
     pat = rx.pattern
-    if mode == "fullmatch" and isinstance(pat, str) and isinstance(s, SStr) and not rx.flags:
-        r, _, _ = regex_to_z3(pat)
-        if I.ctx.branch(SBool(z3.InRe(s.t, r))):
-            return MatchObj([s])
+    plain = isinstance(pat, str) and isinstance(s, SStr) and (not rx.flags or rx.flags == 0)
+    if plain and mode in ("fullmatch", "match") or (plain and mode == "search" and pat != r"\W+"):
+        lang = regex_language(pat, mode)
+        if I.ctx.branch(SBool(z3.InRe(s.t, lang))):
+            return MatchObj([s])  # (groups are not modelled: group(0) of a full match is the string itself)
         return None
     if pat == r"\W+" and mode == "search":
         if not isinstance(s, SStr):
